@@ -6,7 +6,7 @@ git -C /repo apply "$p" || { echo "patch does not apply"; exit 3; }
 trap 'git -C /repo checkout -- . ; git -C /repo clean -fdq vhost vhost-user-backend 2>/dev/null' EXIT
 trap 'exit 143' INT TERM HUP
 for id in "$@"; do
-  out=$(./check $id --tier ${TIER:-quick} 2>&1); rc=$?
+  out=$(VERIF_NO_EVIDENCE=1 ./check $id --tier ${TIER:-quick} 2>&1); rc=$?
   echo "== $id rc=$rc"
   echo "$out" | grep -E "VIOLATION|signature|INCONCLUSIVE|KNOWN" | head -${LINES_MAX:-6}
 done
